@@ -183,22 +183,54 @@ func checkC03(c *Check) {
 
 	// ---- R4 no reopen, mutators guarded by State==Open
 	for _, fn := range kfuncs {
-		for _, ss := range escrowStateStores(l, fn) {
+		if isNewFunc(fn) && fn.Parent() == nil && transparentSite(fn) != nil {
+			continue // a new helper: what it assigns is judged in the function that calls it
+		}
+		r4stores := escrowStateStores(l, fn)
+		for _, h := range helpersOf(fn) {
+			if h.Parent() == nil {
+				r4stores = append(r4stores, escrowStateStores(l, h)...)
+			}
+		}
+		for _, ss := range r4stores {
 			if ss.kname != "AccountOpen" && ss.kname != "PaymentOpen" && ss.k >= 0 {
 				continue
 			}
-			inst := ss.typ + ".State=" + ss.kname + " in " + fnName(fn)
+			inst := ss.typ + ".State=" + ss.kname + " in " + fnName(ss.st.Parent())
 			ok := false
 			if a, isA := ss.fa.X.(*ssa.Alloc); isA && freshRecord(a) {
 				// constructor: every Set in fn dominated by Has(key)==false with same key
 				ok = true
 				nset := 0
+				// the key the keeper's persist helpers store such a record under, from the id fields the record is given
+				idv := map[string]string{}
+				for _, rr := range *a.Referrers() {
+					if fa2, isFA := rr.(*ssa.FieldAddr); isFA && fa2.Referrers() != nil {
+						_, fname := structFieldOf(fa2)
+						for _, r2 := range *fa2.Referrers() {
+							if st2, isS := r2.(*ssa.Store); isS && st2.Addr == ssa.Value(fa2) {
+								idv[fname] = Sym(st2.Val)
+							}
+						}
+					}
+				}
+				helperKey := ""
+				if ss.typ == "Payment" {
+					helperKey = "keeper.paymentKey(" + idv["AccountID"] + ", " + idv["PaymentID"] + ")"
+				} else {
+					helperKey = "keeper.accountKey(" + idv["ID"] + ")"
+				}
 				for _, call := range callsIn(fn, false) {
-					if !isStoreSet(call) {
+					key := ""
+					switch {
+					case isStoreSet(call):
+						key = Sym(call.Common().Args[0])
+					case ss.st.Parent() != fn && call.Parent() == fn && call.Common().StaticCallee() != nil && strings.HasPrefix(call.Common().StaticCallee().Name(), "save"+ss.typ):
+						key = helperKey
+					default:
 						continue
 					}
 					nset++
-					key := Sym(call.Common().Args[0])
 					if !boolCallFactAt(call.Block(), false, func(h *ssa.Call, _ int) bool {
 						return calleeMethod(h) == "Has" && Sym(h.Call.Args[0]) == key
 					}) {
@@ -348,6 +380,39 @@ func checkC03(c *Check) {
 			}
 		}
 		ok := true
+		// path form (indifferent to whether the zero-balance case returns early or joins a shared tail): with the edges
+		// on which Balance.IsZero() is known true taken out of the flow graph, every remaining path to a success return
+		// passes the zeroing store that sits on the ok-edge of the payout
+		isZeroEdge := func(b *ssa.BasicBlock, idx int) bool {
+			ifi, isIf := b.Instrs[len(b.Instrs)-1].(*ssa.If)
+			if !isIf {
+				return false
+			}
+			a := condAtom(ifi.Cond, idx == 0)
+			if a.Op != "true" {
+				return false
+			}
+			h, _ := callOf(a.X)
+			return h != nil && calleeMethod(h) == "IsZero" && Sym(h.Call.Args[0]) == "*p:"+paramName(obj)+".Balance"
+		}
+		zeroing := func(in ssa.Instruction) bool {
+			st, isS := in.(*ssa.Store)
+			if !isS || send == nil || Sym(st.Addr) != "&*p:"+paramName(obj)+".Balance" || !okEdgeAt(st.Block(), send) {
+				return false
+			}
+			v := Sym(st.Val)
+			return strings.HasPrefix(v, "types.NewCoin(") && strings.HasSuffix(v, ", types.ZeroInt())")
+		}
+		pathOK := true
+		for _, r := range successReturns(w) {
+			if !mustPassAvoiding(w, r, zeroing, isZeroEdge) {
+				pathOK = false
+			}
+		}
+		if pathOK && len(successReturns(w)) > 0 {
+			c.Ob("R5", typ+" withdraw helper returns success only with zero balance or after payout", w.Pos(), true, "")
+			continue
+		}
 		for _, r := range successReturns(w) {
 			zeroKnown := boolCallFactAt(r.Block(), true, func(h *ssa.Call, _ int) bool {
 				return calleeMethod(h) == "IsZero" && Sym(h.Call.Args[0]) == "*p:"+paramName(obj)+".Balance"
@@ -759,10 +824,30 @@ func lookupKeys(v ssa.Value, depth int) string {
 func (c *Check) statePersistedRule(rule string, kfuncs []*ssa.Function) {
 	l := c.L
 	for _, fn := range kfuncs {
-		for _, ss := range escrowStateStores(l, fn) {
+		if isNewFunc(fn) && fn.Parent() == nil && transparentSite(fn) != nil {
+			continue // a new helper: its state assignments are followed from the function that calls it
+		}
+		stores := escrowStateStores(l, fn)
+		for _, h := range helpersOf(fn) {
+			if h.Parent() == nil {
+				stores = append(stores, escrowStateStores(l, h)...)
+			}
+		}
+		for _, ss0 := range stores {
+			ss := ss0
 			c.Analysed(fnName(fn))
 			objSym := Sym(ss.fa.X)
-			inst := ss.typ + ".State=" + ss.kname + " in " + fnName(fn) + " on " + objSym
+			inst := ss.typ + ".State=" + ss.kname + " in " + fnName(ss.st.Parent()) + " on " + objSym
+			if ss.st.Parent() != fn {
+				// assigned inside a new helper: the obligation starts at the helper's call in fn
+				li := liftTo(fn, ss.st)
+				if li == nil {
+					c.Info(rule, inst+": position of the helper's call not resolved, persistence not decided", ss.st.Pos(), "")
+					continue
+				}
+				c.statePersistedFrom(rule, inst, fn, li, objSym, ss.st.Pos())
+				continue
+			}
 			// fresh composite literal persisted directly is handled by the same predicate
 			pred := func(in ssa.Instruction) bool {
 				return isPersistOf(in, func(v ssa.Value) bool { return Sym(v) == objSym }, 0)
@@ -961,4 +1046,34 @@ func errResultIndex2(c *ssa.Call) int {
 		}
 	}
 	return -1
+}
+
+// statePersistedFrom: the plain part of statePersistedRule for a state assignment that sits in a new helper — from
+// the helper's call in fn, every path to a nil-error return of fn persists the object (the object as the helper sees
+// it, or the helper's result).
+func (c *Check) statePersistedFrom(rule, inst string, fn *ssa.Function, start ssa.Instruction, objSym string, pos token.Pos) {
+	l := c.L
+	resSym := ""
+	if v, ok := start.(ssa.Value); ok {
+		resSym = Sym(v)
+	}
+	pred := func(in ssa.Instruction) bool {
+		return isPersistOf(in, func(v ssa.Value) bool { s := Sym(v); return s == objSym || (resSym != "" && s == resSym) }, 0)
+	}
+	ok, n, detail := true, 0, ""
+	for _, r := range successReturns(fn) {
+		if !reachableFrom(start, r) {
+			continue
+		}
+		n++
+		if !mustPassFrom(fn, start, r, pred) {
+			ok = false
+			detail = "a path from the helper that assigns the state to the nil-error return at " + l.Pos(r.Pos()) + " does not persist the object"
+		}
+	}
+	if n == 0 {
+		ok = false
+		detail = "no success return reachable from the assignment"
+	}
+	c.Ob(rule, inst, pos, ok, detail)
 }
